@@ -13,6 +13,12 @@ Python → model
   theorem `offLoopF_reaches` shows it is never the reason the loop stops when every call returns at least one offspring.
 * `for i in range(self.offspring_size): offspring.extend(self.variator.evolve([...]))` (EvolutionaryStrategy), the single
   `evolve` call of EpsMOEA                                                       → `callsF`
+* `for i in range(self.population_size): offspring.extend(self.variator.evolve(...))` (GDE3), `for index in
+  self._get_subproblems(): offspring = evolve(...); self.evaluate_all(offspring)` (MOEA/D without utility-based search: every
+  subproblem once)                                                             → `callsF` with `population_size` calls
+* PESA2 (`while len(self.population) < self.population_size`, the offspring *are* the next population), PAES
+  (`evolve([parent])[0]`, one evaluation), `ParticleSwarm.iterate` / `CMAES.iterate` (the swarm / the sample of
+  `offspring_size`, no variator)                                                → the last three styles
 * survival: `offspring.extend(self.population); …; self.population = truncate(offspring, population_size)` (length
   `min population_size (k + |population|)`, C04 / C14 `truncate_length`); GeneticAlgorithm `offspring.append(self.fittest);
   sorted(...)[:population_size]`; EpsMOEA replaces members one for one         → `survivorsSize`
@@ -35,6 +41,11 @@ inductive GenStyle where
   | whileFittest    -- GeneticAlgorithm: loop until offspring_size offspring, append the fittest, sort, slice
   | callsMerge      -- EvolutionaryStrategy: offspring_size calls, merge, sort, slice
   | oneCallKeep     -- EpsMOEA: one call, members replaced one for one
+  | popCallsMerge   -- GDE3: one call per population member, survival keeps population_size
+  | popCallsKeep    -- MOEA/D (every subproblem searched): one call per subproblem, each batch evaluated at once, members replaced in place
+  | whileReplace    -- PESA2: loop until population_size offspring, which become the population
+  | oneCallOne      -- PAES: one call, its first offspring evaluated, the population stays one solution
+  | fixed           -- particle swarms, CMA-ES: the whole swarm / sample is evaluated in every step, no variator call
   deriving DecidableEq, Repr
 
 structure GenCfg where
@@ -55,6 +66,11 @@ def genOffspring (c : GenCfg) (sizes : Nat → Nat) (pos : Nat) : Nat × Nat :=
   | .whileFittest => offLoopF sizes c.offSize c.offSize 0 pos
   | .callsMerge => callsF sizes c.offSize 0 pos
   | .oneCallKeep => callsF sizes 1 0 pos
+  | .popCallsMerge => callsF sizes c.popSize 0 pos
+  | .popCallsKeep => callsF sizes c.popSize 0 pos
+  | .whileReplace => offLoopF sizes c.popSize c.popSize 0 pos
+  | .oneCallOne => (1, pos + 1)
+  | .fixed => (c.popSize, pos)
 
 /-- size of the next population given `k` evaluated offspring -/
 def survivorsSize (c : GenCfg) (k pop : Nat) : Nat :=
@@ -63,6 +79,11 @@ def survivorsSize (c : GenCfg) (k pop : Nat) : Nat :=
   | .whileFittest => min c.popSize (k + 1)
   | .callsMerge => min c.popSize (k + pop)
   | .oneCallKeep => pop
+  | .popCallsMerge => min c.popSize (k + pop)
+  | .popCallsKeep => pop
+  | .whileReplace => k
+  | .oneCallOne => pop
+  | .fixed => pop
 
 /-- one `step()` -/
 def genStep (c : GenCfg) (sizes : Nat → Nat) (s : GenState) : GenState :=
